@@ -130,7 +130,11 @@ def generate(run_seed):
                 kind = "simfault:" + rng.choice(SIM_FAULTS)
         scen["nodes"][n] = {"kind": kind, "scheme": scheme,
                             "includes": graph.get(n) if isinstance(graph.get(n), list) else []}
-        if kind == "ok" and rng.random() < 0.12:
+        included = any(n in v for v in graph.values() if isinstance(v, list))
+        if kind == "ok" and not included and not graph.get(n) and rng.random() < 0.15:
+            # a valid resource without any Section (such a Document is falsy: len() == 0)
+            scen["nodes"][n]["sectionless"] = True
+        if kind == "ok" and not scen["nodes"][n].get("sectionless") and rng.random() < 0.12:
             # a resource in another encoding than UTF-8, correctly declared: parses fine directly
             scen["nodes"][n]["enc"] = rng.choice(["ISO-8859-1", "UTF-16"])
         scen["cache"][n] = rng.choice(CACHE_STATES)
@@ -146,7 +150,10 @@ def generate(run_seed):
             u = rng.choice(pool)
             kind = rng.choice(["load", "load", "deferred_load", "repository", "include"])
             script.append([kind, u, None] if kind == "include" else [kind, u])
-        script.append([rng.choice(["load", "load", "t_load"]), root])
+        last = rng.choice(["load", "load", "t_load"])
+        script.append([last, root])
+        if last == "t_load" or rng.random() < 0.2:
+            script.append([last, root])     # the same call again: the same object
     for _ in range(0 if template else rng.randint(2, 5)):
         r = rng.random()
         u = rng.choice(pool if rng.random() < 0.5 else roots)
@@ -246,6 +253,9 @@ class World(object):
         if node["kind"].startswith("bad:"):
             return bad_bytes(node["kind"][4:])
         text = file_text(name, node["includes"], self.urls, variant)
+        if node.get("sectionless"):
+            text = ('<?xml version="1.0" encoding="UTF-8"?>\n<odML version="1.1">\n  <id>%s</id>\n'
+                    '  <author>%s%s</author>\n</odML>\n' % (uid(name, "doc"), name, variant))
         enc = node.get("enc")
         if enc:
             text = text.replace('encoding="UTF-8"', 'encoding="%s"' % enc).replace(
@@ -725,6 +735,9 @@ def markers_of(summary):
     if summary is None or "none" in summary:
         return "none"
     marks = set()
+    author = summary["tree"].get("author")
+    if author and not summary["tree"].get("secs"):
+        marks.add(author[1])      # a resource without Sections names its version in the author
 
     def walk(t):
         nm = t.get("name")
@@ -852,13 +865,14 @@ def judge(case, hist, ref, scheduled):
         name = call["op"][0]
         if name == "refresh":
             epoch += 1
-        if name == "load" and call["outcome"][0] == "ret" and "token" in call["outcome"][1]:
-            key = (epoch, call["op"][1])
+        if name in ("load", "t_load") and call["outcome"][0] == "ret" and "token" in call["outcome"][1]:
+            # the template handler has a table of its own and is not touched by refresh
+            key = (epoch, call["op"][1]) if name == "load" else ("t", call["op"][1])
             tok = call["outcome"][1]["token"]
             if key in seen and seen[key] != tok:
-                return dict(sig("load.same-object", "load", "other-object"), step=i,
-                            message="load(%s) returned another object than an earlier load "
-                            "without a refresh in between" % call["op"][1])
+                return dict(sig("load.same-object", name, "other-object"), step=i,
+                            message="%s(%s) returned another object than an earlier %s "
+                            "without a refresh in between" % (name, call["op"][1], name))
             seen[key] = tok
     for n, res in sorted(hist["final_loads"].items()):
         if res[0] == "ret" and "token" in res[1]:
